@@ -1144,3 +1144,40 @@ Example ex_roundtrip_hostile :
   = Some ("a<b>&""c'" +++ String (chr 13) (String (chr 10) " ]]> "),
           [uri_attr "eduPersonAffiliation" "urn:oid:1.3.6.1.4.1.5923.1.1.1.1" [xs_val ("g" +++ String (chr 9) "")]]).
 Proof. vm_compute. reflexivity. Qed.
+
+(* ---------- C08, SP side of the small acceptance model: one path for both forms ---------- *)
+Definition sp_envelope (sp : spcfg) (delay now : Z) (ids : list string) (resp : response) : outcome unit :=
+  let b := rs_body resp in
+  if negb (seqb (rs_destination b) (sp_acs sp)) then Err 2 else
+  if negb (sp_allow_initiated sp || mem_str (rs_in_response_to b) ids) then Err 3 else
+  if rs_issue_instant b + delay <? now then Err 4 else
+  if negb (seqb (rs_issuer b) (sp_idp_entity sp)) then Err 5 else
+  if negb (seqb (rs_status b) status_success) then Err 6 else
+  if negb (sig_valid respbody_eqb (sp_idp_key sp) (rs_sig resp) b (rs_id b)) then Err 1 else Ok tt.
+Definition sp_extract (sp : spcfg) (ael : assertion_el) : outcome assertion :=
+  match ael with
+  | APlain a _ => Ok a
+  | AEnc e => match sp_key sp with
+              | Some k => match sym_decrypt k e with Some (a, _) => Ok a | None => Err 7 end
+              | None => Err 7
+              end
+  end.
+
+(* the decrypted assertion goes through exactly the function a plaintext one goes
+   through; an assertion encrypted to another key (or with no key configured) is an error *)
+Theorem sp_accept_same_path sp delay skew now ids resp :
+  sp_accept sp delay skew now ids resp =
+  (do _ <- sp_envelope sp delay now ids resp;
+   do a <- sp_extract sp (rs_assertion (rs_body resp));
+   sp_validate_assertion sp delay skew now ids a).
+Proof.
+  unfold sp_accept, sp_envelope, sp_extract.
+  repeat match goal with |- context [if ?b then _ else _] => destruct b; try reflexivity end.
+Qed.
+
+Theorem sp_undecryptable_is_error sp e :
+  (forall k, sp_key sp = Some k -> k <> en_recipient e) -> sp_extract sp (AEnc e) = Err 7.
+Proof.
+  intro H. unfold sp_extract. destruct (sp_key sp) as [k|]; [|reflexivity].
+  unfold sym_decrypt. specialize (H k eq_refl). destruct (k =? en_recipient e) eqn:E; [lia | reflexivity].
+Qed.
